@@ -167,7 +167,32 @@ def run_shard(spec, res):
             raw_mutated = False
             for _ in range(n_mut):
                 tgt = rng.choice(['body', 'body', 'query', 'query', 'path',
-                                  'headers', 'rawbody'])
+                                  'headers', 'rawbody', 'uuid'])
+                if tgt == 'uuid':
+                    # respell one uuid somewhere in the request
+                    from pv.gen.mutate import respell_uuid
+                    where = rng.choice(['path', 'body', 'query'])
+                    new = None
+                    if where == 'path':
+                        new = respell_uuid(rng, path)
+                        if new is not None:
+                            path = quote(new, safe='/%')
+                    elif where == 'body' and body is not None and \
+                            not raw_mutated:
+                        txt = dumps(body)
+                        new = respell_uuid(rng, txt)
+                        if new is not None:
+                            raw = new.encode('utf-8')
+                            raw_mutated = True
+                    elif q:
+                        i_ = rng.randrange(len(q))
+                        if q[i_][1]:
+                            new = respell_uuid(rng, q[i_][1])
+                            if new is not None:
+                                q[i_] = (q[i_][0], quote(new, safe=':,!'))
+                    kinds.append('uuid-spelling' if new is not None
+                                 else 'uuid-none')
+                    continue
                 if tgt == 'body' and body is not None and not raw_mutated:
                     body, k = mut.mutate_json(body)
                 elif tgt == 'rawbody' and body is not None:
